@@ -917,7 +917,10 @@ CONDITIONS.append({"fn": "c05_e_safe_then_plain", "quick": 30, "thorough": 60, "
 F_NAMES = [n for n in sorted(ENV_ON.filters) if n not in ("safe", "script_tag", "stylesheet_tag")]
 F_FORMS = ["{{ s | %s }}", "{{ s | %s: 'a' }}", "{{ s | %s: s }}", "{{ 'a' | %s: s }}", "{{ s | %s: 'a', 'b' }}", "{{ s | %s: '%%Y' }}",
            "{%% assign v = s | %s %%}{{ v }}", "{{ xs | %s }}", "{{ xs | %s: 'k' }}", "{{ hs | %s: 'k' }}", "{{ hs | %s: 'k', s }}",
-           "{{ s | %s: 1 }}", "{{ s | %s: 0, 1 }}"]
+           "{{ s | %s: 1 }}", "{{ s | %s: 0, 1 }}",
+           # keyword arguments and counts (the translation filters choose between their messages by count)
+           "{{ 'a' | %s: plural: s, count: 2 }}", "{{ 'a' | %s: plural: s, count: 0 }}", "{{ s | %s: plural: 'b', count: 1 }}", "{{ 'a %%(x)s' | %s: x: s }}",
+           "{{ 'a' | %s: s, 2 }}", "{{ 'a' | %s: 'c', s, 2 }}", "{{ s | %s: 'c', 'b', 1 }}", "{{ 'a' | %s: allow_false: s }}", "{{ nosuch | %s: s, allow_false: true }}"]
 F_T = {}
 
 
@@ -946,12 +949,12 @@ def f_sweep(fi, form):
 
 def c05_f_every_filter(fi: int, form: int) -> bool:
     """
-    pre: 0 <= fi <= 76 and 0 <= form <= 12
+    pre: 0 <= fi <= 76 and 0 <= form <= 21
     post: _
     """
     if excluded("c05_f_every_filter", locals()):
         return True
-    fi, form = cint(fi, 0, len(F_NAMES) - 1), cint(form, 0, 12)
+    fi, form = cint(fi, 0, len(F_NAMES) - 1), cint(form, 0, len(F_FORMS) - 1)
     return finish(untraced(lambda: not f_sweep(fi, form)))
 
 
@@ -1038,6 +1041,50 @@ def c05_h_decoders(di: int, fi: int) -> bool:
 DETAIL["c05_h_decoders"] = lambda di, fi: {"template": H_FORMS[fi].replace("%s", H_DEC[di]).replace("%%", "%"), "encoded data and output": h_sweep(di, fi)[:3]}
 CONDITIONS.append({"fn": "c05_h_decoders", "quick": 30, "thorough": 60, "sel_only": True})
 
+# --------------------------------------------------------------------------
+# I: every fixed construct (the thorough tier runs them symbolically) swept concretely over the data pool in the quick tier
+# --------------------------------------------------------------------------
+I_NAMES = sorted(FIXED) + sorted(k for k in FIXED_FL if k not in CUT_FL)     # CUT_FL: the known cut-inside-a-reference finding, kept in c05_cut_*
+I_T = {}
+
+
+def i_sweep(ci):
+    name = I_NAMES[ci]
+    if name not in I_T:
+        I_T[name] = _tpl(name, "-", ENV_FL if name in FIXED_FL else None)
+    t = I_T[name].get()
+    bad = []
+    for i in range(11):
+        for j in range(11):
+            text = d_text(i, j)
+            for other in ("a", "<", "&", "'" + text):
+                for n in (0, 1, 2):
+                    try:
+                        out = t.render(s=text, t=other, n=n, xs=[text, other])
+                        out2 = t.render(s=other, t=text, n=n, xs=[other, text])
+                    except Exception:
+                        continue
+                    if not html_safe(out) or not html_safe(out2):
+                        bad.append({"s": text, "t": other, "n": n, "output": out, "output with s and t swapped": out2})
+                        if len(bad) > 2:
+                            return bad
+    return bad
+
+
+def c05_i_fixed_concrete(ci: int) -> bool:
+    """
+    pre: 0 <= ci <= 33
+    post: _
+    """
+    if excluded("c05_i_fixed_concrete", locals()):
+        return True
+    ci = cint(ci, 0, len(I_NAMES) - 1)
+    return finish(untraced(lambda: not i_sweep(ci)))
+
+
+DETAIL["c05_i_fixed_concrete"] = lambda ci: {"construct": I_NAMES[ci], "template": source(I_NAMES[ci], "-"), "failing": i_sweep(ci)}
+CONDITIONS.append({"fn": "c05_i_fixed_concrete", "quick": 120, "thorough": 240, "sel_only": True})
+
 ASSUMPTIONS = [
     "stub: markupsafe._escape_inner is bound to markupsafe._native._escape_inner (the documented pure-Python fallback) instead of the C speed-up, which would concretise symbolic strings before escaping; selftest compares both kernels",
     "template sources are concrete skeletons generated from the tables in harness/c05.py (constructs x filter chains); their literal text and string literals contain no HTML-special characters; render data s, t (strings), n (int), xs = [s, t] are symbolic",
@@ -1061,6 +1108,8 @@ OUTSIDE = [
 def selftest():
     if len(F_NAMES) != 77:
         return ["c05_f_every_filter is bounded to 77 filters, found %d" % len(F_NAMES)]
+    if len(I_NAMES) != 34 or len(F_FORMS) != 22:
+        return ["pool sizes differ from the bounds of c05_i_fixed_concrete / c05_f_every_filter: %d, %d" % (len(I_NAMES), len(F_FORMS))]
     fails = []
     import markupsafe._speedups as sp
     for v in ("", "<", "a&b", "<>&" + Q1 + Q2, "&lt;", "x" * 5 + "&"):
